@@ -50,6 +50,7 @@ def run(ctx: Ctx) -> None:
     _memo.rule_isinstance_on_class(ctx, ['graphiq/solvers/alternate_target_solver.py', 'graphiq/utils/relabel_module.py'])
     _memo.rule_zip_truncation(ctx, ['graphiq/solvers/alternate_target_solver.py', 'graphiq/utils/relabel_module.py'])
     _memo.rule_search_fallthrough(ctx, ['graphiq/solvers/alternate_target_solver.py', 'graphiq/utils/relabel_module.py'])
+    _memo.rule_zip_pairing(ctx, ['graphiq/solvers/alternate_target_solver.py', 'graphiq/utils/relabel_module.py'])
     tables.rule_config_domain(ctx, ATS, "AlternateTargetSolver.solve", "AlternateTargetSolverSetting", "lc_method")
     tables.rule_api_numpy(ctx, [RELABEL])
     rule_alignment(ctx)
